@@ -36,14 +36,21 @@ MANIFEST = dict(
         "solver steps; objective_monotone_svm (every history of the equality-constrained solver, any symmetric K) and "
         "objective_monotone_partial (both kinds, diagonal entries 0 or >= 1e-12, i.e. outside the curvature guard of the 1-D "
         "sub-solver, with edge_gain_negative_witness / box_step_gain_one_negative_witness inside it). solveQuadraticEdge and "
-        "solveQuadratic2DBox return points of the box (all inputs). "
+        "solveQuadratic2DBox return points of the box (all inputs). (4) shrink_sound: shrink(eps) is the back-to-front loop started "
+        "from the state after its optional unshrink with bounds valid for all active variables; at EVERY removal in that loop the "
+        "invariant holds, the bounds are still valid for the remaining active variables, and the removed variable cannot take "
+        "part in an improving step: for the equality-constrained kind every feasible sum-preserving two-variable move involving "
+        "it (any active partner, curvature >= 0) strictly decreases the dual objective (exact, second order); for the box kind "
+        "every feasible move of it has strictly negative first-order effect and moving it alone strictly decreases the objective "
+        "(K_aa >= 0). "
         "Tie: the Float instance of the same definitions is compared bit-for-bit, the Rat instance exactly on FE_INEXACT-free "
         "prefixes, with the real classes driven through QpSolver::solve (MVP / LibSVM / maximum-gain selection) and through "
         "adversarial op sequences (double/float entries, CachedMatrix with minimal and larger caches) under ASan/UBSan; an "
         "independent oracle re-derives lin - K*alpha and checks every clause of the property (incl. objective monotonicity, sum "
         "preservation and soundness of shrinking) after every operation."),
-  note=TRUST + "NOT yet proved, covered by the exact/bit-for-bit correspondence and the oracle only: shrink_sound; that the selection "
-       "criteria return admissible working sets (i,j active, g_i >= g_j) is exercised, not proved; objective monotonicity of the 1-D "
+  note=TRUST + "NOT yet proved, covered by the exact/bit-for-bit correspondence and the oracle only: that the selection "
+       "criteria return admissible working sets (i,j active, g_i >= g_j) is exercised, not proved; for the box kind a JOINT "
+       "two-variable move involving a shrunk variable is only covered to first order; objective monotonicity of the 1-D "
        "box step inside the guard region 0 < K_ii < 1e-12 is false for the code as it is (documented guard; witness theorems). "
        "The proofs about the 2-D box solver are about the definition regenerated from the current source (they fail, and the "
        "check reports a broken obligation, if the function changes shape). "
